@@ -38,7 +38,8 @@ CONSTANTS Classes,    \* set of [t, name, ver, def, uid, nv, pname, pver]: class
                       \* (option t for t <= 3, option 6 for t = 4); pname / pver: the parent class of a child plugin ("" / 0 otherwise)
           Repaired,
           FzChoices, FzoChoices,   \* the values fuzzy_for / fuzzy_for_options may be set to (sets of types / of option numbers)
-          MaxLen      \* bound on the history length (model checking only)
+          MaxLen,     \* bound on the history length (model checking only)
+          ExtraVals   \* TRUE: option 2 also takes the values 3 and 4 (see ValsOf)
 
 T == 1..4
 Dep(i) == CASE i = 1 -> 0 [] i = 2 -> 1 [] i = 3 -> 2 [] i = 4 -> 2
@@ -47,7 +48,7 @@ Opts == 1..7
 Vals == 0..2                  \* 0 = not set in the context config
 \* option 2 (mid's own option) also takes two values that *compare equal* to value 1 in the implementation language but are
 \* different settings (Python: 1, True, 1.0 - distinct JSON, hence distinct lineages): 3 and 4
-ValsOf(o) == IF o = 2 THEN 0..4 ELSE Vals
+ValsOf(o) == IF o = 2 /\ ExtraVals THEN 0..4 ELSE Vals
 SharedDefault == 1            \* every class declares the shared option with this default
 OwnOpt(t) == IF t = 4 THEN 6 ELSE t
 TakesShared(t) == t \in {1, 3, 4}
